@@ -47,6 +47,11 @@
 (*   Md6Levels(d, K, L, r, M, bitlen)   the log of that computation           *)
 (*   Md6Plan(L, bitlen)              the same log without computing f: it     *)
 (*                                   depends on L and bitlen only             *)
+(*                                                                           *)
+(* Cost note: Md6RunWith recurses once per compression and TLC's identifier   *)
+(* lookups get slower with the recursion depth (see Md6.tla), so for trees of *)
+(* more than a few dozen nodes with the real f prefer one Md6Step per TLC     *)
+(* step (st is an ordinary value; log grows by one tuple per step).           *)
 (***************************************************************************)
 EXTENDS Md6, MDPad
 
